@@ -85,6 +85,39 @@ pub fn execute(plan: &Plan, choices: Option<Vec<u32>>, record: bool, props: &[St
     faults.insert("stall_skips".to_string(), out.counters.stall_skips);
     faults.insert("blocks".to_string(), out.counters.blocks);
     faults.insert("select_arm_choices".to_string(), out.counters.select_choices);
+    // fault kinds that actually fired in this run, counted from the history
+    {
+        let mut add = |k: &str, n: u64| {
+            if n > 0 {
+                *faults.entry(k.to_string()).or_default() += n;
+            }
+        };
+        for o in &h.ops {
+            let chaos = o.client >= 100;
+            match (&o.op, &o.res) {
+                (Op::Clear, Some(_)) if chaos => add("chaos_clear_at_arbitrary_step", 1),
+                (Op::Clear, Some(_)) => add("inline_clear", 1),
+                (Op::Close, Some(_)) if chaos => add("chaos_close_at_arbitrary_step", 1),
+                (Op::UpdateMaxCost { .. }, Some(_)) => add("capacity_change", 1),
+                (Op::Jump { .. }, Some(_)) => add("clock_jump_op", 1),
+                (Op::Sleep { .. }, Some(_)) => add("virtual_sleep", 1),
+                (Op::Insert { .. }, Some(Res::Bool(false))) => add("insert_refused_or_dropped", 1),
+                (Op::Get { hold, .. }, Some(_)) if *hold > 0 => add("value_ref_held_across_steps", 1),
+                (_, Some(Res::Err(_))) => add("operation_reported_error_(buffer_full_or_closed)", 1),
+                (_, None) => add("operation_never_returned", 1),
+                _ => {}
+            }
+        }
+        for (_, ob) in h.obs() {
+            if let ObsEv::Push { kept: false, closed, .. } = ob {
+                add(if *closed { "get_batch_lost_closed" } else { "get_batch_dropped_queue_full" }, 1);
+            }
+        }
+        add("planned_stalls", plan.sim.stalls.len() as u64);
+        add("runs_with_eager_clock", (plan.sim.eager_clock_permille > 0) as u64);
+        add("drop_all_handles", (plan.finale == Finale::DropAll) as u64);
+        add("veto_by_validator", h.evs.iter().filter(|e| matches!(e.kind, EvKind::Validate { ok: false, .. })).count() as u64);
+    }
     let mut state_hashes = Vec::new();
     for c in &h.cps {
         let mut x = 0xcbf29ce484222325u64;
